@@ -109,7 +109,7 @@ fn scenario_framing(args: &Args, report: &mut Report) {
     let mut last_len: Vec<usize> = vec![0; actors.len()];
 
     for i in 0..n_requests {
-        if report.num_violations() >= 3 {
+        if report.num_violations() >= 3 || report.violation_occurrences() >= 8 {
             break;
         }
         // occasionally: hostile traffic on other connections
